@@ -28,7 +28,7 @@ func TestMain(m *testing.M) {
 }
 
 type attemptScript struct {
-	readKind int // 0 none, 1 some, 2 all
+	readKind int // 0 none, 1 some (ReadFull), 2 all (ReadAll), 3 all (io.Copy), 4 some (io.CopyN)
 	readN    int
 	mutate   int
 	fail     bool
@@ -137,10 +137,11 @@ func genCase(t *rapid.T, raw bool) *caseSpec {
 	c.retries = rapid.IntRange(0, 4).Draw(t, "retries")
 	nfail := rapid.IntRange(0, c.retries).Draw(t, "nfail")
 	for i := 0; i <= nfail; i++ {
-		s := attemptScript{readKind: rapid.IntRange(0, 2).Draw(t, "readKind"), mutate: rapid.IntRange(0, 7).Draw(t, "mutate"), fail: i < nfail}
-		if s.readKind == 1 && size > 1 {
+		s := attemptScript{readKind: rapid.IntRange(0, 4).Draw(t, "readKind"), mutate: rapid.IntRange(0, 7).Draw(t, "mutate"), fail: i < nfail}
+		partial := s.readKind == 1 || s.readKind == 4
+		if partial && size > 1 {
 			s.readN = rapid.IntRange(1, size-1).Draw(t, "readN")
-		} else if s.readKind == 1 {
+		} else if partial {
 			s.readKind = 2
 		}
 		c.script = append(c.script, s)
@@ -247,6 +248,18 @@ func makeHandlers(t *rapid.T, c *caseSpec) (http.Handler, *result) {
 			if err != nil || !bytes.Equal(buf[:n], c.body[:s.readN]) {
 				bad("reading the first %d bytes: n=%d err=%v, equal to the body's prefix: %v", s.readN, n, err, bytes.Equal(buf[:n], c.body[:n]))
 			}
+		case 3:
+			var sink bytes.Buffer
+			n, err := io.Copy(&sink, r.Body)
+			if err != nil || !bytes.Equal(sink.Bytes(), c.body) {
+				bad("io.Copy of the body: %d bytes err=%v, body has %d bytes (first difference at %d)", n, err, len(c.body), firstDiff(sink.Bytes(), c.body))
+			}
+		case 4:
+			var sink bytes.Buffer
+			n, err := io.CopyN(&sink, r.Body, int64(s.readN))
+			if err != nil || !bytes.Equal(sink.Bytes(), c.body[:s.readN]) {
+				bad("io.CopyN of the first %d bytes: n=%d err=%v", s.readN, n, err)
+			}
 		case 2:
 			all, err := io.ReadAll(r.Body)
 			if err != nil || !bytes.Equal(all, c.body) {
@@ -325,7 +338,7 @@ func verdict(t *rapid.T, c *caseSpec, res *result, status int, how string) {
 	spilled := int64(len(c.body)) > c.thr
 	earlier := false
 	for i := 0; i+1 < len(c.script); i++ {
-		if c.script[i].readKind == 1 || c.script[i].mutate != 0 {
+		if c.script[i].readKind == 1 || c.script[i].readKind == 4 || c.script[i].mutate != 0 {
 			earlier = true
 		}
 	}
